@@ -376,7 +376,7 @@ def run_impl(sc: dict, sched_seed: int):
         return rng.randrange(len(opts))
     outcome, c = run_world(build_from(sc), sc["until"], chooser, lazy=sc["lazy"], cache=sc["cache"],
                            max_loop_iterations=sc["max_loop"], rt_factor=sc.get("rt_raw", sc.get("rt")), rt_strict=bool(sc.get("rt_strict")),
-                           time_resolution=sc.get("tres", 1.0))
+                           time_resolution=sc.get("tres", 1.0), debug=bool(sc.get("debug")))
     if c.deadlock:
         outcome = "deadlock"
     c.outcome = outcome
@@ -587,6 +587,8 @@ def gen_scenario(rng: random.Random, groups: bool = True, async_req: bool = Fals
         if rng.random() < 0.5:
             sc["extra_async"] = [{"sim": rng.randrange(n), "n": rng.randrange(0, 3), "kind": "set_event",
                                   "time": rng.choice([1, 2, 3, 4, sc["until"], sc["until"] + 2])}]
+    if not rt and rng.random() < 0.15:
+        sc["debug"] = True          # World(debug=True): scheduler.step is wrapped to record the execution graph; behaviour must not change
     if not rt and rng.random() < 0.2:
         # some simulators report an older API version: mosaik drives them through its adapters
         for x in sims:
@@ -821,6 +823,8 @@ def features(sc: dict, outcome: str) -> list:
         f.append("conn:" + ("weak" if c["weak"] else f"ts{c['ts']}") + (":async" if c.get("async") else ""))
     if any(x.get("api") for x in sc["sims"]):
         f.append("legacy-API simulators (adapters)")
+    if sc.get("debug"):
+        f.append("debug mode")
         if c["src"] == c["dst"]:
             f.append("conn:self")
     f.append("lazy" if sc["lazy"] else "eager")
